@@ -1,10 +1,93 @@
 import MazeVerif.DriverOps.Util
+import MazeVerif.Model.Pixels
 namespace MZ.Drv.C10
-open Lean MZ.Drv
+open Lean MZ.Drv MZ.Pix
 
-/-- driver ops of property C10 (`"op": "C10.<name>"`) -/
-def handle (op : String) (_j : Json) : R Json := do
+/-! JSON conventions: a pixel is the integer `r*65536 + g*256 + b`; an image is a list of rows;
+    a maze is `{kind, rows, cols, edges:[[d,i,j]…], start, end, solution}` (start/end/solution as applicable). -/
+def rgbCode (c : RGB) : Nat := c.1 * 65536 + c.2.1 * 256 + c.2.2
+def codeRgb (n : Nat) : RGB := (n / 65536, (n / 256) % 256, n % 256)
+
+def errName : Err → String
+  | .value => "ValueError" | .assertion => "AssertionError" | .index => "IndexError"
+  | .shape => "shape" | .fuel => "fuel"
+
+def jImg (g : Img RGB) : Json := jList (fun row => jNats (row.map rgbCode)) g.toLists
+
+def kindName : Kind → String | .lattice => "lattice" | .targeted => "targeted" | .solved => "solved"
+def parseKind (s : String) : R Kind :=
+  match s with
+  | "lattice" => pure .lattice | "targeted" => pure .targeted | "solved" => pure .solved
+  | _ => throw s!"kind {s}"
+
+def parseMaze (j : Json) : R Maze := do
+  let rows ← getNat j "rows"
+  let cols ← getNat j "cols"
+  let E ← getEdges j "edges"
+  match ← getStr j "kind" with
+  | "lattice" => pure (.lattice rows cols E)
+  | "targeted" => pure (.targeted rows cols E (← getCell j "start") (← getCell j "end"))
+  | "solved" =>
+    match ← getCells j "solution" with
+    | s :: rest => pure (.solved rows cols E s rest)
+    | [] => throw "empty solution"
+  | k => throw s!"kind {k}"
+
+def jMaze (m : Maze) : Json :=
+  let base := [("kind", Json.str (kindName m.kind)), ("rows", jNat m.rows), ("cols", jNat m.cols), ("edges", jEdges m.edges)]
+  match m with
+  | .lattice .. => obj base
+  | .targeted _ _ _ s e => obj (base ++ [("start", jCell s), ("end", jCell e)])
+  | .solved _ _ _ s rest => obj (base ++ [("solution", jCells (s :: rest))])
+
+def jExcept {α} (f : α → Json) : Except Err α → Json
+  | .ok a => obj [("ok", f a)]
+  | .error e => obj [("err", Json.str (errName e))]
+
+def parseImg (j : Json) : R (Img RGB) := do
+  let rows ← (← j.getArr?).toList.mapM asNatList
+  match Img.ofLists cWall (rows.map (·.map codeRgb)) with
+  | some g => pure g
+  | none => throw "ragged image"
+
+def allKinds : List Kind := [.lattice, .targeted, .solved]
+
+/-- driver-side speed-up only: the same image (same `h`, `w`, same pixel at every in-range position) backed by an
+    array instead of the chain of closures built by the painting steps -/
+def freeze {α} [Inhabited α] (g : Img α) : Img α :=
+  let arr : Array (Array α) := (g.toLists.map List.toArray).toArray
+  ⟨g.h, g.w, fun x y => if x < g.h ∧ y < g.w then (arr[x]!)[y]! else g.px x y⟩
+
+/-- ops:
+  * `C10.maze` {maze} → for each of the four flag pairs: model pixels, model ascii, and what the three classes read
+    back from the model's own pixels / ascii;
+  * `C10.read` {cls, pixels} → `fromPixels cls pixels`;
+  * `C10.read_ascii` {cls, text} → `fromAscii cls text`. -/
+def handle (op : String) (j : Json) : R Json := do
   match op with
+  | "C10.maze" =>
+    let m ← parseMaze (← fld j "maze")
+    let combos := [(true, true), (true, false), (false, false), (false, true)]
+    let outs := combos.map fun (se, ss) =>
+      let px := (asPixels m se ss).map freeze
+      let asc := asAscii m se ss
+      let reads : Json := match px with
+        | .ok g => obj (allKinds.map fun k => (kindName k, jExcept jMaze (fromPixels k g)))
+        | .error _ => Json.null
+      let readsA : Json := match asc with
+        | .ok s => obj (allKinds.map fun k => (kindName k, jExcept jMaze (fromAscii k s)))
+        | .error _ => Json.null
+      obj [("se", se), ("ss", ss), ("pixels", jExcept jImg px),
+           ("ascii", jExcept (fun s => Json.str (String.ofList s)) asc), ("reads", reads), ("reads_ascii", readsA)]
+    pure <| obj [("renders", Json.arr outs.toArray)]
+  | "C10.read" =>
+    let cls ← parseKind (← getStr j "cls")
+    let g ← parseImg (← fld j "pixels")
+    pure <| obj [("read", jExcept jMaze (fromPixels cls g))]
+  | "C10.read_ascii" =>
+    let cls ← parseKind (← getStr j "cls")
+    let s ← getStr j "text"
+    pure <| obj [("read", jExcept jMaze (fromAscii cls s.toList))]
   | _ => throw s!"unknown op {op}"
 
 end MZ.Drv.C10
